@@ -1227,6 +1227,7 @@ func (x *Exec) checkCallsites(fr *Frame, st *State, call *ssa.Call) {
 		for n, v := range x.params {
 			env.vars[n] = v
 		}
+		x.localsEnv(fr, st, env, nil) // named locals, as in loop invariants
 		// the actual arguments of this call: arg0, arg1, ... (and recv for a method called through an interface)
 		cc := call.Common()
 		for i, a := range cc.Args {
